@@ -69,7 +69,10 @@ def gen_case(rng, i):
             "signals": np.abs(rng.normal(0, 1, (int(rng.integers(1, 5)), nd))),
             "background": (np.abs(rng.normal(0.5, 0.3, nd)) + 0.05) * unit, "unit": unit,
             "x_adapt": rng.uniform(0.1, 2, n), "add_baseline_kw": bool(rng.integers(2)),
-            "lb": None if rng.integers(2) else np.zeros(n), "ub": None if rng.integers(2) else rng.uniform(1, 5, n)}
+            "lb": None if rng.integers(2) else np.zeros(n), "ub": None if rng.integers(2) else rng.uniform(1, 5, n),
+            # state and arguments that must not change any answer: a registered filter uncertainty; the spectra's own
+            # domain passed explicitly (equal to the filters' domain)
+            "with_uncertainty": bool(rng.integers(3) == 0), "explicit_domain": bool(rng.integers(3) == 0)}
 
 
 def _K_apply(K, V, m):
@@ -97,18 +100,26 @@ def chk_case(inp, c):
         kw["K"] = K.copy() if isinstance(K, np.ndarray) else K
     if base is not None:
         kw["baseline"] = base.copy() if isinstance(base, np.ndarray) else base
+    ukw = {}
+    if inp.get("with_uncertainty"):
+        c.cell("filters_uncertainty=given")
+        ukw["filters_uncertainty"] = 0.1 * f + 0.01
+    dkw = {}
+    if inp.get("explicit_domain") and np.ndim(dom) == 1:
+        c.cell("spectra-domain=explicit")
+        dkw["domain"] = dom.copy()
     if inp["ctor"]:
         c.cell("register=ctor")
         est = c.call(dreye.ReceptorEstimator, f.copy(), domain=dom_arg, sources=s.copy(), lb=inp["lb"], ub=inp["ub"],
-                     _where="ReceptorEstimator(sources=)", **kw)
+                     _where="ReceptorEstimator(sources=)", **kw, **ukw)
     else:
         c.cell("register=method")
-        est = c.call(dreye.ReceptorEstimator, f.copy(), domain=dom_arg, _where="ReceptorEstimator")
+        est = c.call(dreye.ReceptorEstimator, f.copy(), domain=dom_arg, _where="ReceptorEstimator", **ukw)
         if K is not None:
             c.call(est.register_adaptation, kw["K"])
         if base is not None:
             c.call(est.register_baseline, kw["baseline"])
-        c.call(est.register_system, s.copy(), lb=inp["lb"], ub=inp["ub"], _where="register_system")
+        c.call(est.register_system, s.copy(), lb=inp["lb"], ub=inp["ub"], _where="register_system", **dkw)
 
     w = oracles.domain_weights(dom, nd, True)
     bvec = np.zeros(m) if base is None else np.broadcast_to(np.asarray(base, float), (m,))
@@ -156,11 +167,11 @@ def chk_case(inp, c):
     Sor, Smag = oracles.capture_oracle(f, sig, w)
     Rs_or, _ = _K_apply(K, Sor + bvec, m)
     _, Rs_mag = _K_apply(K, Smag + np.abs(bvec), m)
-    Rs = np.asarray(c.call(est.relative_capture, sig.copy(), _where="relative_capture"))
+    Rs = np.asarray(c.call(est.relative_capture, sig.copy(), _where="relative_capture", **dkw))
     c.require(Rs.shape == Rs_or.shape and np.all(np.abs(Rs - Rs_or) <= REL * Rs_mag + 1e-300),
               "relative capture of a spectrum equals K (Q + baseline)", mechanism="rel-value",
               got_shape=list(Rs.shape))
-    Qs = np.asarray(c.call(est.capture, sig.copy(), _where="capture"))
+    Qs = np.asarray(c.call(est.capture, sig.copy(), _where="capture", **dkw))
     c.require(Qs.shape == Sor.shape and np.all(np.abs(Qs - Sor) <= REL * Smag + 1e-300),
               "absolute capture of a spectrum is the trapezoid integral", mechanism="cap-value")
     c.note("A_first_col", {"got": A[:, 0], "oracle": Aor[0]})
@@ -170,7 +181,7 @@ def chk_case(inp, c):
     bg = inp["background"][:nd] if inp["background"].size >= nd else np.resize(inp["background"], nd)
     c.cell("adapt=background")
     akw = {"add_baseline": True} if inp["add_baseline_kw"] else {}
-    c.call(est.register_background_adaptation, bg.copy(), _where="register_background_adaptation", **akw)
+    c.call(est.register_background_adaptation, bg.copy(), _where="register_background_adaptation", **akw, **dkw)
     r1 = np.asarray(c.call(est.relative_capture, bg.copy(), _where="relative_capture(background)"))
     c.require(r1.shape == (m,) and np.all(np.abs(r1 - 1) <= 1e-9),
               "after adapting to a background spectrum its relative capture is 1 for every receptor",
